@@ -1,6 +1,6 @@
 (* C04 — cleaning is exact and safe; the clean script is equivalent to auto-clean. *)
 From AM.Model Require Import Base Cleaner.
-From AM.Lemmas Require Import ShellLemmas CleanerLemmas.
+From AM.Lemmas Require Import ShellLemmas CleanerLemmas CleanFlat.
 Open Scope string_scope.
 Open Scope list_scope.
 
@@ -120,3 +120,37 @@ Proof.
   eapply W_down; [reflexivity|left; reflexivity|].
   eapply W_down; [reflexivity|left; reflexivity|]. apply W_here.
 Qed.
+
+(* EXACTNESS, file by file.  [flat [] t] lists the regular files of a tree with
+   their paths and sizes; [apply_clean (scan ...)] removes every queued file and
+   directory.  For EVERY directory tree whose names are unique within each
+   directory (symbolic links allowed) and EVERY keep set of files and
+   directories: what is left after cleaning is exactly the list of files that
+   are kept or lie below a kept directory - same paths, same sizes, same order;
+   everything else is gone. *)
+Theorem clean_leaves_exactly_the_kept_files :
+  forall keep cs,
+  wf_tree (Dir cs) ->
+  flat [] (apply_clean (scan keep true [] (Dir cs)) (Dir cs)) =
+  filter (fun e => coveredb keep (fst e)) (flat [] (Dir cs)).
+Proof. exact clean_leaves_exactly_the_covered_files. Qed.
+Print Assumptions clean_leaves_exactly_the_kept_files.
+
+(* ... when the keep set names files only, this is the listing filtered by
+   membership in the keep set: the flat reading used by Converge.flat_clean (C08, C07) *)
+Theorem clean_is_the_flat_filter :
+  forall keep cs,
+  wf_tree (Dir cs) ->
+  (forall q e, In q keep -> In e (flat [] (Dir cs)) -> Prefix q (fst e) -> q = fst e) ->
+  flat [] (apply_clean (scan keep true [] (Dir cs)) (Dir cs)) =
+  filter (fun e => in_keep keep (fst e)) (flat [] (Dir cs)).
+Proof. exact clean_is_membership_filter. Qed.
+Print Assumptions clean_is_the_flat_filter.
+
+Example clean_exactness_example :
+  let t := [("dists", Dir [("Release", File 5)]);
+            ("pool", Dir [("a.deb", File 7); ("old", Dir [("old.deb", File 9)]); ("keepdir", Dir [("x", File 1)])])] in
+  let keep := [["dists"; "Release"]; ["pool"; "a.deb"]; ["pool"; "keepdir"]] in
+  flat [] (apply_clean (scan keep true [] (Dir t)) (Dir t)) =
+  [(["dists"; "Release"], 5%N); (["pool"; "a.deb"], 7%N); (["pool"; "keepdir"; "x"], 1%N)].
+Proof. exact clean_flat_example. Qed.
